@@ -273,3 +273,153 @@ def _key_role(st):
     sibs = [x for x in ast.walk(fn) if type(x) is type(st)] if fn else [st]
     sibs.sort(key=lambda x: (x.lineno, x.col_offset))
     return f'{kind}#{next((i for i, x in enumerate(sibs) if x is st), 0)}'
+
+
+# ----------------------------------------------------------------------
+# R-MEMO/key-complete
+# ----------------------------------------------------------------------
+
+def _enclosing(n, kinds):
+    out = []
+    p = getattr(n, '_parent', None)
+    while p is not None and not isinstance(
+            p, (ast.FunctionDef, ast.AsyncFunctionDef)):
+        if isinstance(p, kinds):
+            out.append(p)
+        p = getattr(p, '_parent', None)
+    return out
+
+
+def check_memo_keys(ctx, fi, rule='R-MEMO/key-complete'):
+    """`if k not in cache: cache[k] = f(a, b, ...)`: the cached value is
+    reused for every later occurrence of k, so everything it is computed
+    from that varies during the life of the cache (the loop variables of
+    the loops between the creation of the cache and the store) must be
+    part of the key.  A value computed from (level, label) and cached
+    under label alone is handed to the namesake of another level."""
+    creations = dict()
+    for st in ast.walk(fi.node):
+        if isinstance(st, ast.Assign) and len(st.targets) == 1 \
+                and isinstance(st.targets[0], ast.Name):
+            v = st.value
+            if (isinstance(v, ast.Dict) and not v.keys) or (
+                    isinstance(v, ast.Call) and isinstance(
+                        v.func, ast.Name) and v.func.id == 'dict'
+                    and not v.args and not v.keywords):
+                creations.setdefault(st.targets[0].id, []).append(st)
+    n = 0
+    for st in ast.walk(fi.node):
+        if not (isinstance(st, ast.Assign) and isinstance(
+                st.targets[0], ast.Subscript)):
+            continue
+        tg = st.targets[0]
+        b = tg
+        while isinstance(b, (ast.Subscript, ast.Attribute)):
+            b = b.value
+        if not (isinstance(b, ast.Name) and b.id in creations):
+            continue
+        memo = False
+        for g in _enclosing(st, (ast.If,)):
+            t = g.test
+            if isinstance(t, ast.Compare) and len(t.ops) == 1 \
+                    and isinstance(t.ops[0], ast.NotIn) \
+                    and unparse(t.comparators[0]) == unparse(tg.value) \
+                    and unparse(t.left) == unparse(tg.slice):
+                memo = True
+        if not memo:
+            continue
+        cr_loops = set()
+        for c in creations[b.id]:
+            cr_loops |= {id(lp) for lp in _enclosing(c, (ast.For,))}
+        vary = set()
+        for lp in _enclosing(st, (ast.For,)):
+            if id(lp) not in cr_loops:
+                vary |= {x.id for x in ast.walk(lp.target)
+                         if isinstance(x, ast.Name)}
+        chain = set()
+        e = tg
+        while isinstance(e, ast.Subscript):
+            chain |= {x.id for x in ast.walk(e.slice)
+                      if isinstance(x, ast.Name)}
+            e = e.value
+        used = {x.id for x in ast.walk(st.value) if isinstance(x, ast.Name)}
+        missing = (used & vary) - chain
+        n += 1
+        ctx.touch(fi)
+        ctx.ob(rule, f'{fi.qual}:{_key_role(st)}', fi.loc(st), not missing,
+               'the cached value depends only on its key' if not missing
+               else f'`{unparse(st)[:70]}` caches a value computed from '
+               f'{sorted(missing)} under a key that does not contain '
+               f'{"it" if len(missing) == 1 else "them"}: a later lookup '
+               'with another value of '
+               f'{sorted(missing)} gets the stale entry')
+    return n
+
+
+# ----------------------------------------------------------------------
+# R-ALIGN/zip-lockstep
+# ----------------------------------------------------------------------
+
+def check_zip_alignment(ctx, fi, rule='R-ALIGN/zip-lockstep'):
+    """`zip(a, b)` pairs element i of a with element i of b.  When one of
+    them is a list filled by `append` in a loop, the pairing is right only
+    if the other was filled in the same loop (lock-step) or *is* the
+    sequence that loop iterates -- not a sorted or otherwise re-ordered
+    copy of it."""
+    cfg = cfg_of(fi)
+    rd = rd_of(fi)
+    ex = None
+    n = 0
+
+    def append_loops(name):
+        out = []
+        for c in ast.walk(fi.node):
+            if isinstance(c, ast.Call) and isinstance(
+                    c.func, ast.Attribute) and c.func.attr == 'append' \
+                    and isinstance(c.func.value, ast.Name) \
+                    and c.func.value.id == name:
+                lps = _enclosing(c, (ast.For,))
+                out.append(lps[0] if lps else None)
+        return out
+
+    for z in ast.walk(fi.node):
+        if not (isinstance(z, ast.Call) and isinstance(z.func, ast.Name)
+                and z.func.id == 'zip' and len(z.args) >= 2
+                and all(isinstance(a, ast.Name) for a in z.args)):
+            continue
+        filled = {a.id: append_loops(a.id) for a in z.args}
+        loops = {id(lp): lp for ls in filled.values() for lp in ls
+                 if lp is not None}
+        if not loops:
+            continue
+        ns = [x for x in cfg.node_of_expr(z) if x.id in rd.live]
+        if not ns:
+            continue
+        n += 1
+        ok = True
+        why = ''
+        if len(loops) > 1:
+            ok = False
+            why = 'its arguments are filled in different loops'
+        else:
+            lp = next(iter(loops.values()))
+            for a in z.args:
+                if filled[a.id]:
+                    continue
+                if ex is None:
+                    ex = Expander(fi)
+                hdr = [x for x in cfg.nodes_of(lp) if x.kind == 'for'
+                       and x.id in rd.live]
+                ta = ex.expand(a, ns[0].id)
+                tl = ex.expand(lp.iter, hdr[0].id) if hdr else None
+                if ta != tl and unparse(a) != unparse(lp.iter):
+                    ok = False
+                    why = (f'`{a.id}` is not the sequence '
+                           f'`{unparse(lp.iter)[:40]}` that the loop '
+                           'filling the other argument iterates')
+        ctx.touch(fi)
+        ctx.ob(rule, f'{fi.qual}:zip#{n - 1}', fi.loc(z), ok,
+               'zipped lists are filled in lock-step' if ok else
+               f'`{unparse(z)[:60]}` pairs lists that are not in the same '
+               f'order: {why}')
+    return n
